@@ -19,7 +19,8 @@ RULE = ("(S1) synthetic ppc dicts (3-6 buses, arbitrary r/x/b/g/tap/shift incl. 
         "RATE_A 0, several gens per bus, PD/QD/GS/BS of all signs) through from_ppc, every created row compared with the "
         "Coq model; (S2) generated MV nets (3-8 buses, lines from parameters incl. parallel/conductance, 0-2 transformers "
         "with hv/lv Ratio taps, shift, off-nominal rated voltages, gens, sgens, loads, shunts with own vn_kv/step, "
-        "out-of-service elements, open line switches, bus-bus switches, f_hz 50/60, sn_mva 1/10) through "
+        "out-of-service elements, open line switches, bus-bus switches with and without impedance (switch_rx_ratio 1/2/5), f_hz 50/60, "
+        "sn_mva 1/10; 20 % OPF-ready nets converted with mode='opf' and controllable sgens/loads on gen/ext_grid buses) through "
         "to_ppc -> from_ppc and to_mpc(file) -> from_mpc, each stage compared with the model and the converted nets' "
         "power flow compared with the original; non-trivial = at least one transformer or tap/shift/shunt/gen/switch "
         "feature present and the original power flow converged")
@@ -199,8 +200,13 @@ def _cmp_from_ppc(ctx, ppc, net, model, case, tag):
             if not _close(Fraction(float(g[PG])), net[et].p_mw.at[int(el)]):
                 ctx.disagreement("%s gen row %d: PG %r not stored in %s.p_mw" % (tag, k, g[PG], et), case)
         if et in ("gen", "ext_grid"):
-            if not _close(Fraction(float(g[VG])), net[et].vm_pu.at[int(el)]):
-                # several gens at one bus with different VG: the first row's VG is used (documented in the code)
+            # several gen rows at one bus: the voltage setpoint is the VG of the FIRST row of that bus (in to_ppc output the
+            # first rows are the ext_grids/gens, later rows of the bus are controllable sgens/loads with the default VG 1.0)
+            first_vg = [float(r[VG]) for r in ppc["gen"] if int(r[GEN_BUS]) == int(g[GEN_BUS])][0]
+            if not _close(Fraction(first_vg), net[et].vm_pu.at[int(el)]):
+                ctx.disagreement("%s gen row %d: vm_pu %r of the created %s is not the VG %r of the first gen row of its bus" % (
+                    tag, k, float(net[et].vm_pu.at[int(el)]), et, first_vg), case)
+            if first_vg != float(g[VG]):
                 ctx.count("vg_taken_from_first_row_of_bus")
     for k in range(ppc["branch"].shape[0]):
         ctx.corr_checked += 1
@@ -327,13 +333,35 @@ def _gen_net(rng):
             feat.add("line_switch")
     if rng.random() < 0.25 and nb >= 3:
         a, b_ = rng.sample(buses, 2)
-        pp.create_switch(net, a, b_, "b", closed=rng.random() < 0.7, z_ohm=rng.choice([0.0, 0.0, 0.5]))
+        zsw = rng.choice([0.0, 0.5, 0.25])
+        pp.create_switch(net, a, b_, "b", closed=rng.random() < 0.7, z_ohm=zsw)
         feat.add("bus_switch")
+        if zsw:
+            feat.add("bus_switch_z")
     if rng.random() < 0.1:
         net.bus.loc[rng.choice(buses[1:]), "in_service"] = False
         feat.add("bus_oos")
     if oos:
         feat.add("oos")
+    if rng.random() < 0.2:
+        # OPF-ready variant (to_ppc(mode="opf")): limits everywhere and controllable sgens/loads on the buses of the
+        # voltage-controlling elements, which then share their bus with several ppc gen rows
+        net.bus["min_vm_pu"] = 0.9
+        net.bus["max_vm_pu"] = 1.1
+        for t_, lim in (("ext_grid", 1000.0), ("gen", 50.0)):
+            for c_, v_ in (("min_p_mw", -lim), ("max_p_mw", lim), ("min_q_mvar", -lim), ("max_q_mvar", lim)):
+                net[t_][c_] = v_
+        if len(net.gen):
+            net.gen["controllable"] = True
+        vbuses = [int(x) for x in net.ext_grid.bus.values] + [int(x) for x in net.gen.bus.values]
+        for b_ in vbuses:
+            if rng.random() < 0.7:
+                pp.create_sgen(net, b_, p_mw=rng.randint(1, 8) / 8, q_mvar=rng.randint(-2, 2) / 8, controllable=True,
+                               min_p_mw=0.0, max_p_mw=2.0, min_q_mvar=-1.0, max_q_mvar=1.0)
+            if rng.random() < 0.3:
+                pp.create_load(net, b_, p_mw=rng.randint(1, 8) / 8, q_mvar=rng.randint(0, 2) / 8, controllable=True,
+                               min_p_mw=0.0, max_p_mw=2.0, min_q_mvar=-1.0, max_q_mvar=1.0)
+        feat.add("opf_mode")
     return net, feat
 
 
@@ -451,7 +479,7 @@ def _losses(net):
     return -float(np.nansum(net.res_bus.p_mw.values))
 
 
-def _compare_pf(net, n2, lk):
+def _compare_pf(net, n2, lk, opf=False):
     """spec: same bus voltages, slack power, total losses. returns list of messages"""
     bad = []
     worst = 0.0
@@ -471,6 +499,12 @@ def _compare_pf(net, n2, lk):
                 bad.append("bus %d: vm %.9f vs %.9f, va %.7f vs %.7f" % (b_, v1, v2, a1, a2))
     # slack power: injections of all voltage-controlled sources of the slack buses
     s1 = float(net.res_ext_grid.p_mw.sum()) + float(net.res_gen.p_mw.sum() if len(net.gen) else 0.0)
+    if opf:
+        # mode="opf": controllable sgens/loads/storages are ppc gen rows and come back as controllable sgens
+        for t_, sg in (("sgen", 1.0), ("load", -1.0), ("storage", -1.0)):
+            if len(net[t_]) and "controllable" in net[t_].columns:
+                m = net[t_].controllable.fillna(False).astype(bool).values
+                s1 += sg * float(np.nansum(net["res_" + t_].p_mw.values[m]))
     s2 = float(n2.res_ext_grid.p_mw.sum()) + float(n2.res_gen.p_mw.sum() if len(n2.gen) else 0.0)
     if len(n2.sgen):
         s2 += float(n2.res_sgen.p_mw[n2.sgen.controllable.astype(bool)].sum())
@@ -492,16 +526,23 @@ def _full_case(ctx, rng, k, net=None, feat=None, expect=None):
         net, feat = _gen_net(rng)
     js = pp.to_json(net)
     case = {"net": js}
+    # option variants of the converter: the R/X split of impedance switches and the conversion mode
+    zsw = len(net.switch) and bool(((net.switch.et == "b") & net.switch.closed & (net.switch.z_ohm > 0)).any())
+    rx = rng.choice([2, 1, 5]) if zsw else 2
+    okw = dict(switch_rx_ratio=rx)
+    if "opf_mode" in feat:
+        okw["mode"] = "opf"
     try:
-        pp.runpp(net, **RUNKW)
+        pp.runpp(net, switch_rx_ratio=rx, **RUNKW)
     except Exception as e:
         ctx.count("original_pf_failed_%s" % type(e).__name__)
         ctx.case(case, nontrivial=False)
         return None
     snapshot = pp.to_json(net)
     init = rng.choice(["flat", "results"])
+    ctx.count("switch_rx_ratio_%s" % rx)
     try:
-        ppc = to_ppc(net, trafo_model="pi", init=init)
+        ppc = to_ppc(net, trafo_model="pi", init=init, **okw)
     except Exception as e:
         ctx.violation("spec", "to_ppc raised %s: %s" % (type(e).__name__, str(e)[:200]), case)
         ctx.case(case, nontrivial=True)
@@ -532,7 +573,7 @@ def _full_case(ctx, rng, k, net=None, feat=None, expect=None):
         n2c = copy.deepcopy(n2)
         try:
             _run_conv(n2)
-            bad = _compare_pf(net, n2, lk)
+            bad = _compare_pf(net, n2, lk, opf="opf_mode" in feat)
         except Exception as e:
             bad = ["power flow of the converted net raised %s: %s" % (type(e).__name__, str(e)[:150])]
     else:
@@ -550,13 +591,13 @@ def _full_case(ctx, rng, k, net=None, feat=None, expect=None):
     fn = os.path.join(ctx.workdir, "case_%d.mat" % k)
     badm = []
     try:
-        to_mpc(net, fn, trafo_model="pi", init=init)
+        to_mpc(net, fn, trafo_model="pi", init=init, **okw)
         n3 = from_mpc(fn, f_hz=net.f_hz)
         n3.pop("_options", None)
         try:
             _run_conv(n3)
             lk1 = net._pd2ppc_lookups["bus"]
-            badm = _compare_pf(net, n3, lk1)
+            badm = _compare_pf(net, n3, lk1, opf="opf_mode" in feat)
         except Exception as e:
             badm = ["power flow of the net converted through the .mat file raised %s: %s" % (type(e).__name__, str(e)[:150])]
     except Exception as e:
@@ -589,7 +630,7 @@ def _mat2ppc_2d(fn):
     return ppc
 
 
-def _classify(net, ppc, n2c, lk, g_line, nan_rate, mpc, g_any=False, matfile=None):
+def _classify(net, ppc, n2c, lk, g_line, nan_rate, mpc, g_any=False, matfile=None, okw=None):
     """a failure is a recorded finding only if its guard fails on this input AND undoing exactly that defect makes the
     round trip pass; otherwise it is 'spec'"""
     applicable = []
@@ -630,7 +671,7 @@ def _classify(net, ppc, n2c, lk, g_line, nan_rate, mpc, g_any=False, matfile=Non
         if len(n4.line):
             n4.line["g_us_per_km"] = n4.line.g_us_per_km.values * 2            # undo the halving
         _run_conv(n4)
-        if _compare_pf(net, n4, lk):
+        if _compare_pf(net, n4, lk, opf="mode" in (okw or {})):
             return ["spec"]
     except Exception:
         return ["spec"]
